@@ -51,6 +51,15 @@ CHECKS = {
         note='Trusted: the Canon trait implementations in the generated program (safe Rust iteration) and the native run. Slices are shown by '
              'BugStalker as (data_ptr, length); only those facts are judged for slices.',
         ref='DESIGN.md §4 C06'),
+    'C04': dict(
+        technique='runtime monitoring: differential oracle, every lookup answer of the live debugger compared with an independent DWARF decode (llvm-dwarfdump / llvm-objdump)',
+        text='For every generated binary of the configuration matrix every instruction boundary of every user function is resolved to '
+             'function and file:line, every source line and every function name is turned into breakpoint addresses, and the answers are '
+             'compared with the reference decode: governing row for a pc, statements of the line (or the next line) with one address per '
+             'function instance, prologue-end address inside the function. Held on the binaries explored except the known findings.',
+        note='Trusted: llvm-dwarfdump line table / DIE ranges, llvm-objdump instruction boundaries. Only user compilation units are judged; '
+             'function names are accepted in either DIE-path or demangled-linkage form.',
+        ref='DESIGN.md §4 C04'),
 }
 
 NOT_APPLICABLE = {
